@@ -229,6 +229,25 @@ def c11(tier, replay):
     h = vcommon.build_harness()
     q = tier == "quick"
     scen = make_scenarios(h, 8 if q else 60, 30 if q else 250, 0, 0, "C11", 14 if q else 120)
+    # direction spec -> code: TLC enumerates (from Chess.tla alone) the placements of K+Q / K+R near a bare king on the edge that
+    # have a mate in one for the mover ("mating") or where the bare king has moves that walk into one and moves that do not ("avoid")
+    fam_cov = {}
+    extra = []
+    for fam, tagname, smp in (("mating", "MATE1", 80 if q else 2), ("avoid", "AVOID", 240 if q else 8)):
+        r = vcommon.tlc("Fam", "Fam_%s.cfg" % fam, env={"FAMILY": fam, "SAMPLE": str(smp), "OFFSET": str(vcommon.seed() % smp)},
+                        workers=vcommon.NCPU, xmx="8g", timeout=3000)
+        if not r["ok"]:
+            raise ToolError("%s family enumeration failed:\n%s" % (fam, r["out"][-1500:]))
+        members = vcommon.tlc_prints(r["out"], tagname)
+        if len(members) < 10:
+            raise ToolError("coverage hole: %s family too small (%d)" % (fam, len(members)))
+        run.add("states", r["distinct"])
+        run.add("transitions", r["states"])
+        fam_cov[fam] = {"members_with_the_feature": len(members), "placements_enumerated": r["distinct"], "sample": "1/%d" % smp}
+        extra += [{"tag": "mate", "cmd": "position fen " + m[1]} for m in members]
+    run.cov["families_from_spec"] = fam_cov
+    sc = json.load(open(scen))
+    json.dump(sc + extra, open(scen, "w"))
     totals, summ = run_expiry(run, "C11", h, scen, "small,mate,fam", 4 if q else 5, 0, 600000, 2 if q else 3, "mate")
     if totals.get("mates", 0) == 0:
         raise ToolError("coverage hole: no mate scores in this run")
@@ -236,7 +255,7 @@ def c11(tier, replay):
     os.remove(scen)
     model_search(run, tier, 3)
     run.cov["rule"] = ("scenarios = random endgames (KQ, KR, KRR, KQ v KR, minor + pawns ...) filtered to those with a mate in one for the mover or where some "
-                       "but not all moves allow a mate in one, plus unfiltered ones; search to depth 4 (5 thorough) under the virtual clock; TLC re-derives on "
+                       "but not all moves allow a mate in one, plus unfiltered ones, plus the members of the TLC-enumerated families `mating` and `avoid` (K+Q / K+R near a bare king on the edge); search to depth 4 (5 thorough) under the virtual clock; TLC re-derives on "
                        "Chess.tla: the set of mating moves / safe moves, MateWithin(root, N) for every `score mate N` line, MatedWithin for the last line of "
                        "completed depths")
     run.assumptions.append("mate claims are re-derived up to N = %d (larger N are counted but not judged)" % (2 if q else 3))
